@@ -34,7 +34,7 @@ var palette = []string{"eth1", "eth10", "eth1/1"}
 
 // palettes: the key values of a case (index 0 = the default ones); separators and characters with a meaning in
 // paths: '/', ' ', '_', ':' (IPv6 / MAC addresses), brackets, '=', '*'
-var palettes = [][]string{{"eth1", "eth10", "eth1/1"}, {"x:y", "fe80::1", "y"}, {"a", "a b", "b a"}, {"a_b", "a", "b_a"}, {"[z]", "k=v", "c.d"}, {"a", "a/b", "b/a"}}
+var palettes = [][]string{{"eth1", "eth10", "eth1/1"}, {"x:y", "fe80::1", "y"}, {"a", "a b", "b a"}, {"a_b", "a", "b_a"}, {"[z]", "k=v", "c.d"}, {"a", "a/b", "b/a"}, {"a+b", "aab", "a(b|c)"}}
 
 type PathSel struct {
 	Leaf     vlib.LeafSel `json:"leaf"`
@@ -84,7 +84,7 @@ func twins(t *rapid.T, sels []vlib.LeafSel, label string) []vlib.LeafSel {
 
 func gen(t *rapid.T) *Case {
 	c := &Case{Running: twins(t, vlib.GenLeafSels(t, uni, 0, 10, "run"), "run")}
-	c.Pal = rapid.SampledFrom([]int{0, 0, 0, 1, 2, 3, 4, 5}).Draw(t, "palette")
+	c.Pal = rapid.SampledFrom([]int{0, 0, 0, 1, 2, 3, 4, 5, 6}).Draw(t, "palette")
 	ni := rapid.IntRange(0, 2).Draw(t, "nintents")
 	for i := 0; i < ni; i++ {
 		c.Intents = append(c.Intents, vlib.GenLeafSels(t, uni, 1, 6, "int"))
